@@ -138,11 +138,14 @@ def cmp_map_den(a: dict, b: dict, what="") -> str:
 
 def _hs_den(ma: dict) -> dict:
     """hitsound_copy denotation: notes as a multiset; sounds per time as multisets."""
-    notes, per_time, files = [], {}, {}
+    notes, per_time, files, banks = [], {}, {}, []
     for key in ("hits", "holds"):
         for r in ma["lists"][key]["rows"]:
             notes.append((("offset", r["offset"]), ("column", r["column"]), ("length", r.get("length", NAN)), ("kind", key)))
             t = r["offset"]
+            # the sample banks and volumes the notes of one time carry, as a multiset (which note of a chord carries which
+            # sound is the library's business; what sounds at that time is not)
+            banks.append((("t", t), ("bank", (r.get("sample_set", NAN), r.get("addition_set", NAN), r.get("custom_set", NAN))), ("volume", r.get("volume", NAN))))
             hs = int(r["hitsound_set"]) if r["hitsound_set"] is not NAN else 0
             c = per_time.setdefault(t, [0, 0, 0])
             c[0] += 1 if hs & 2 else 0
@@ -153,7 +156,7 @@ def _hs_den(ma: dict) -> dict:
     samples = [(("offset", r["offset"]), ("file", r["sample_file"])) for r in ma["meta"]["samples"]["rows"]]
     sounds = [(("t", t), ("clap", c[0]), ("finish", c[1]), ("whistle", c[2])) for t, c in per_time.items()]
     named = [(("t", t), ("file", f)) for t, fs in files.items() for f in fs] + [(("t", dict(s)["offset"]), ("file", dict(s)["file"])) for s in samples]
-    return dict(notes=notes, sounds=sounds, named=named)
+    return dict(notes=notes, sounds=sounds, named=named, banks=banks)
 
 
 def _series_den(s):
@@ -324,7 +327,7 @@ class TwinCompare(OpSpec):
     @staticmethod
     def _cmp_hs(x, y):
         a, b = _hs_den(alpha_map(x)), _hs_den(alpha_map(y))
-        for k in ("notes", "sounds", "named"):
+        for k in ("notes", "sounds", "named", "banks"):
             m = _ms_close(a[k], b[k], "hitsound copy " + k)
             if m:
                 return m
